@@ -8,21 +8,26 @@
 EXTENDS Synth, Json, IOUtils
 
 T == ndJsonDeserialize(IOEnv.TRACE)
-MaxFails == 12
+\* failures are accumulated up to a bound PER SIGNATURE (property, label): a defect whose bookkeeping symptom repeats on every
+\* later snapshot (a wrong counter, say) must not use up the room of the failures of other properties / labels that follow
+MaxPerSig == 6
 
 VARIABLES l, h, pre, fails, cnt, exec, xi, drift
 vars == <<l, h, pre, fails, cnt, exec, xi, drift>>
 
 Cnt0 == [steps |-> 0, execs |-> 0, noteon |-> 0, c05on |-> 0, c05nonempty |-> 0, c06idle |-> 0, c06full |-> 0,
          c06steal |-> 0, c12blank |-> 0, c12sound |-> 0, c12fallback |-> 0, c19valid |-> 0, c19invalid |-> 0,
-         quietchk |-> 0, users2 |-> 0, sustained |-> 0, drumlife |-> 0, refined |-> 0, refskip |-> 0, drifted |-> 0]
+         quietchk |-> 0, drainchk |-> 0, shorthit |-> 0, latekoff |-> 0, users2 |-> 0, sustained |-> 0, drumlife |-> 0, refined |-> 0, refskip |-> 0, drifted |-> 0]
 
 Init == l = 1 /\ h = [none |-> TRUE] /\ pre = [none |-> TRUE] /\ fails = <<>> /\ cnt = Cnt0 /\ exec = 0
         /\ xi = [none |-> TRUE] /\ drift = <<>>
 
 Tag(p, S, ev) == { [p |-> p, w |-> x, l |-> l, x |-> exec, e |-> ev.e, d |-> ""] : x \in S }
 TagD(p, S, ev, d) == { [p |-> p, w |-> x, l |-> l, x |-> exec, e |-> ev.e, d |-> d] : x \in S }
-AddFails(S) == IF Len(fails) >= MaxFails \/ S = {} THEN fails ELSE fails \o SetToSeq(S)
+SigCount(fs, p, w) == Cardinality({ i \in DOMAIN fs : fs[i].p = p /\ fs[i].w = w })
+AddFails(S) == IF S = {} THEN fails ELSE fails \o SetToSeq({ f \in S : SigCount(fails, f.p, f.w) < MaxPerSig })
+\* reference bookkeeping of the percussion minimum life (non-vacuity counters of the C05 clauses about postponed key-offs)
+NumPending(hh) == Cardinality({ i \in DOMAIN hh.life : hh.life[i].pending })
 
 IsNoteOn(ev) == ev.e = "NoteOn" /\ ev.v > 0
 StepInit(ev) ==
@@ -76,6 +81,11 @@ StepCall(ev) ==
           !.c19valid = @ + (IF ev.e = "SysEx" /\ sd.valid THEN 1 ELSE 0),
           !.c19invalid = @ + (IF ev.e = "SysEx" /\ ~sd.valid THEN 1 ELSE 0),
           !.quietchk = @ + (IF h1.quiet >= 30010 THEN 1 ELSE 0),
+          \* the final Drain step of a history (everything released, >= 60 ms generated): the no-stuck-note clause is decided there
+          !.drainchk = @ + (IF ev.e = "Gen" /\ "drain" \in DOMAIN ev /\ h1.quiet >= 30010 THEN 1 ELSE 0),
+          \* a percussion note released inside its minimum life (key-off postponed) / a postponed key-off that fell due in this Gen
+          !.shorthit = @ + (IF ev.e # "Gen" /\ NumPending(h1) > NumPending(h) THEN 1 ELSE 0),
+          !.latekoff = @ + (IF ev.e = "Gen" /\ NumPending(h1) < NumPending(h) THEN 1 ELSE 0),
           !.users2 = @ + (IF \E ci \in DOMAIN s.ch : Len(s.ch[ci].u) > 1 THEN 1 ELSE 0),
           !.sustained = @ + (IF \E ci \in DOMAIN s.ch : \E ui \in DOMAIN s.ch[ci].u : s.ch[ci].u[ui].s # 0 THEN 1 ELSE 0),
           !.drumlife = @ + (IF h1.life # <<>> THEN 1 ELSE 0),
